@@ -1,9 +1,17 @@
 package main
 
 import (
+	"bufio"
+	"context"
+	"encoding/json"
 	"fmt"
 	"io"
 	"os"
+	"os/exec"
+	"strings"
+	"time"
+
+	"verif/harness/tr"
 )
 
 // appendFiles appends <out>.real<i> for i in [from,to] to out and removes them.
@@ -22,5 +30,56 @@ func appendFiles(out string, from, to int) {
 		io.Copy(f, g)
 		g.Close()
 		os.Remove(p)
+	}
+}
+
+// isolated runs one case of a driver in a child process (the same binary with -only and
+// -extra child) and appends the child's events to t. A child that dies (unrecovered panic in another
+// goroutine, fatal error) becomes the event {"ev":"crash"}: the check never dies with the code it
+// examines. The child must not emit the reset record.
+func isolated(t *tr.Writer, driver string, c interface{}, timeout time.Duration) {
+	self, _ := os.Executable()
+	b, _ := json.Marshal(c)
+	tmp := fmt.Sprintf("%s.child%d", os.Getenv("VH_TMP")+"/vhchild", time.Now().UnixNano())
+	if os.Getenv("VH_TMP") == "" {
+		tmp = fmt.Sprintf("%s/vhchild%d", os.TempDir(), time.Now().UnixNano())
+	}
+	defer os.Remove(tmp)
+	ctx, cancel := context.WithTimeout(context.Background(), timeout)
+	defer cancel()
+	cmd := exec.CommandContext(ctx, self, driver, "-only", string(b), "-extra", "child", "-out", tmp)
+	var stderr strings.Builder
+	cmd.Stderr = &stderr
+	err := cmd.Run()
+	if f, e := os.Open(tmp); e == nil {
+		sc := bufio.NewScanner(f)
+		sc.Buffer(make([]byte, 1<<24), 1<<24)
+		for sc.Scan() {
+			var r tr.Rec
+			if json.Unmarshal(sc.Bytes(), &r) == nil && r["ev"] != "reset" {
+				t.Emit(r)
+			}
+		}
+		f.Close()
+	}
+	if err != nil {
+		detail := err.Error()
+		msg := stderr.String()
+		for _, key := range []string{"fatal error: ", "panic: "} {
+			if i := strings.Index(msg, key); i >= 0 {
+				detail = strings.SplitN(msg[i:], "\n", 2)[0]
+				// the first frame inside the module, for the signature
+				if j := strings.Index(msg[i:], "hprose-golang/v3/"); j >= 0 {
+					rest := msg[i+j+len("hprose-golang/v3/"):]
+					detail += " @ " + strings.SplitN(strings.SplitN(rest, "\n", 2)[0], "(", 2)[0]
+				}
+				break
+			}
+		}
+		if ctx.Err() != nil {
+			t.Emit(tr.Rec{"ev": "hang", "detail": "the child did not finish within " + timeout.String()})
+		} else {
+			t.Emit(tr.Rec{"ev": "crash", "detail": detail})
+		}
 	}
 }
